@@ -1,4 +1,4 @@
-import Canopy.Proof.LedgerC04c
+import Canopy.Proof.LedgerPercents
 /-!
 # C04 — token supply conservation
 
@@ -22,9 +22,9 @@ Explicit hypotheses (`Op.Safe`):
   WITHOUT a guard (`AddToTotalSupply`, `PoolAdd`): at the excluded point the recorded total wraps while the tokens
   are really created — `mint_wraps_at_excluded_point`, `f5_witness`; the Go oracle runs that point on the real code
   (scenarios `mint-wraps-total`, `dao-mint-wraps-total`, `faucet-mint-wraps-total`; known finding F5).
-* `PercentsOK` when a block ends: the reward percents recorded for a committee do not exceed 100 per certificate
-  sample. `lib.CertificateResult.CheckBasic` enforces ≤ 100 per certificate; `percentsOK_distribute` shows the
-  distribution re-establishes it. (The end-of-block code subtracts `pool − distributed` unguarded.)
+* a certificate awards at most 100 % of the reward pool of the node's chain (`paySum ≤ 100`; this is what
+  `lib.CertificateResult.CheckBasic` enforces). It keeps `PercentsOK` (recorded percents ≤ 100 per certificate
+  sample) invariant, which in turn makes the unguarded subtraction `pool − distributed` at the end of the block exact.
 -/
 namespace Canopy.C04
 open Canopy.Ledger Canopy.Gen.LedgerFacts
@@ -186,40 +186,50 @@ def Op.mayBurn : Op → Bool
   | _ => false
 
 /-- the explicit hypotheses (see the module header) -/
-def Op.Safe (L : Ledger) (op : Op) : Prop :=
-  L.supply.total + op.mintBound L < 2 ^ 64 ∧ (op = .endBlock → PercentsOK L)
+def Op.Safe (L : Ledger) : Op → Prop
+  | .cert _ _ _ _ pay => paySum L.cfg.chainId pay ≤ 100
+  | op => L.supply.total + op.mintBound L < 2 ^ 64
+
+/-- the invariant carried along a chain: the supply identity and the bound on the recorded reward percents -/
+def Inv (L : Ledger) : Prop := InvSupply L ∧ PercentsOK L
 
 /-- **C04, one operation.** If the invariant holds and the operation succeeds, the invariant holds afterwards and the
 total changed by `minted − burned` with `minted ≤ mintBound` (0 unless the operation is one of the three minting
 ones) and `burned = 0` unless the operation may burn. -/
-theorem op_conserves {L L' : Ledger} {op : Op} (hi : InvSupply L) (hs : op.Safe L) (h : op.apply L = .ok L') :
-    InvSupply L' ∧ ∃ minted burned, minted ≤ op.mintBound L ∧ (op.mayBurn = false → burned = 0) ∧
+theorem op_conserves {L L' : Ledger} {op : Op} (hinv : Inv L) (hs : op.Safe L) (h : op.apply L = .ok L') :
+    Inv L' ∧ ∃ minted burned, minted ≤ op.mintBound L ∧ (op.mayBurn = false → burned = 0) ∧
       L'.supply.total + burned = L.supply.total + minted := by
-  obtain ⟨hm, hp⟩ := hs
+  obtain ⟨hi, hp⟩ := hinv
   have hU : (2 : Nat) ^ 64 = U64 := by decide
-  rw [hU] at hm
   cases op with
   | tx sender fee msg =>
+    have hm : L.supply.total + txMint L sender fee msg < U64 := by simpa [Op.Safe, Op.mintBound, hU] using hs
     have s := applyTx_step hi hm h
-    have hlt : L'.supply.total < U64 := by have := s.1; simp only [Op.mintBound] at hm; omega
-    exact ⟨s.inv hi hlt, _, 0, Nat.le_refl _, fun _ => rfl, s.1⟩
+    have hlt : L'.supply.total < U64 := by have := s.1; omega
+    exact ⟨⟨s.inv hi hlt, (keepCD_applyTx h).percents hp⟩, _, 0, Nat.le_refl _, fun _ => rfl, s.1⟩
   | mint =>
+    have hm : L.supply.total + scheduledMint L < U64 := by simpa [Op.Safe, Op.mintBound, hU] using hs
     obtain ⟨m, hle, s⟩ := beginBlockMint_mints hi hm h
-    have hlt : L'.supply.total < U64 := by have := s.1; simp only [Op.mintBound] at hm; omega
-    exact ⟨s.inv hi hlt, m, 0, hle, fun _ => rfl, s.1⟩
+    have hlt : L'.supply.total < U64 := by have := s.1; omega
+    have k : KeepCD L L' := (beginBlockMint_sameStaking h).ctx.committeesData
+    exact ⟨⟨s.inv hi hlt, k.percents hp⟩, m, 0, hle, fun _ => rfl, s.1⟩
   | slash chain percent addrs =>
     obtain ⟨b, s⟩ := slashValidators_burns h
-    exact ⟨s.inv_of_le hi (Nat.zero_le _), 0, b, Nat.zero_le _, fun hb => by simp [Op.mayBurn] at hb, s.1⟩
+    exact ⟨⟨s.inv_of_le hi (Nat.zero_le _), (keepCD_slashValidators h).percents hp⟩, 0, b, Nat.zero_le _,
+      fun hb => by simp [Op.mayBurn] at hb, s.1⟩
   | cert hh rh mem ds pay =>
     obtain ⟨b, s⟩ := handleCertificateResults_burns h
-    exact ⟨s.inv_of_le hi (Nat.zero_le _), 0, b, Nat.zero_le _, fun hb => by simp [Op.mayBurn] at hb, s.1⟩
+    exact ⟨⟨s.inv_of_le hi (Nat.zero_le _), handleCertificateResults_percents hp hs h⟩, 0, b, Nat.zero_le _,
+      fun hb => by simp [Op.mayBurn] at hb, s.1⟩
   | retire chain =>
     obtain rfl := Except.ok.inj h
     have s : SameBal L (retireCommittee L chain) := by unfold retireCommittee; split <;> exact ⟨rfl, rfl, rfl, rfl⟩
-    exact ⟨s.moves.inv hi, 0, 0, Nat.zero_le _, fun _ => rfl, s.moves.1⟩
+    have k : KeepCD L (retireCommittee L chain) := by unfold retireCommittee KeepCD; split <;> rfl
+    exact ⟨⟨s.moves.inv hi, k.percents hp⟩, 0, 0, Nat.zero_le _, fun _ => rfl, s.moves.1⟩
   | endBlock =>
-    obtain ⟨b, s⟩ := endBlock_burns hi (hp rfl) h
-    exact ⟨s.inv_of_le hi (Nat.zero_le _), 0, b, Nat.zero_le _, fun hb => by simp [Op.mayBurn] at hb, s.1⟩
+    have h' : Canopy.Ledger.endBlock L = .ok L' := h
+    obtain ⟨b, s⟩ := endBlock_burns hi hp h'
+    exact ⟨⟨s.inv_of_le hi (Nat.zero_le _), endBlock_percents hi hp h'⟩, 0, b, Nat.zero_le _, fun hb => by simp [Op.mayBurn] at hb, s.1⟩
 
 /-- non-vacuity: a send with a fee succeeds on a concrete ledger, moves 5 tokens, pays 2 into the reward pool and
 leaves the total at 100 -/
@@ -233,17 +243,19 @@ inductive Reachable (L₀ : Ledger) : Ledger → Prop
   | base : Reachable L₀ L₀
   | step {L L' : Ledger} (op : Op) : Reachable L₀ L → op.Safe L → op.apply L = .ok L' → Reachable L₀ L'
 
-/-- **C04, every history.** The invariant holds on every ledger reachable from one that satisfies it — in
-particular from every accepted genesis (`inv_genesis`). -/
-theorem inv_reachable {L₀ L : Ledger} (h0 : InvSupply L₀) (hr : Reachable L₀ L) : InvSupply L := by
+/-- **C04, every history.** The invariant holds on every ledger reachable from one that satisfies it. -/
+theorem inv_reachable {L₀ L : Ledger} (h0 : Inv L₀) (hr : Reachable L₀ L) : Inv L := by
   induction hr with
   | base => exact h0
   | step op _ hs h ih => exact (op_conserves ih hs h).1
 
-/-- `PercentsOK` is re-established by the distribution that consumes it -/
-theorem percentsOK_distribute {L L' : Ledger} (hi : InvSupply L) (hp : PercentsOK L)
-    (h : distributeCommitteeRewards L = .ok L') : PercentsOK L' :=
-  (distributeCommitteeRewards_burns hi hp h).2
+/-- … in particular from every accepted genesis: after any sequence of successful operations the recorded total is the
+exact sum of all balances and stakes -/
+theorem supply_conserved_from_genesis {cfg : Config} {params : Params} {accounts : List (Addr × Nat)} {pools : List (Nat × Nat)}
+    {vals : List GenesisValidator} {retired : List Nat} {L₀ L : Ledger}
+    (ha : ∀ e ∈ accounts, e.2 < 2 ^ 64) (hp : ∀ e ∈ pools, e.2 < 2 ^ 64) (hv : ∀ g ∈ vals, g.val.stake < 2 ^ 64)
+    (hg : genesis cfg params accounts pools vals retired = .ok L₀) (hr : Reachable L₀ L) : InvSupply L :=
+  (inv_reachable ⟨inv_genesis ha hp hv hg, genesis_percentsOK hg⟩ hr).1
 
 /-! ## F5: the excluded point -/
 
